@@ -164,6 +164,9 @@ def run_probes(chk):
 # ----------------------------------------------------------------------------
 # K: model vs real code
 # ----------------------------------------------------------------------------
+NSEQ = 4
+
+
 def part_k(chk, tier, variant=None):
     rng = chk.rng
     cov = chk.coverage
@@ -173,8 +176,9 @@ def part_k(chk, tier, variant=None):
     vlit = coq_variant(variant)
     ntrees = 60 if tier == "thorough" else 14
     nweird = 400 if tier == "thorough" else 80
-    feats_cycle = [("symlinks",), ("symlinks", "utf8"), ("symlinks", "raw"), ("utf8", "utf8noflag", "symlinks"),
-                   ("mbox", "exec", "maildir"), ("links", "gophermap"), ()]
+    feats_cycle = [("symlinks", "prefixes"), ("symlinks", "utf8", "zipnames"), ("symlinks", "raw"),
+                   ("utf8", "utf8noflag", "symlinks", "prefixes"), ("mbox", "exec", "maildir", "zipnames"),
+                   ("links", "gophermap", "prefixes"), ()]
     jobs = []
     meta = []
     zl = len(ZSEL)
@@ -188,18 +192,26 @@ def part_k(chk, tier, variant=None):
             for op in rng.sample(list(VOPS), 2):
                 calls.append([op, ZSEL + ("/" + p if p else rng.choice(["", "/"]))])
         rng.shuffle(calls)
+        # the archive side is asked in several orders, each on a fresh VFSZip (one instance = one request):
+        # what an earlier lookup leaves behind must not change a later answer
+        orders = [list(sels)]
+        for _ in range(NSEQ - 1):
+            o = list(sels)
+            rng.shuffle(o)
+            orders.append(o)
         acts = [{"do": "index"}, {"do": "vfs", "calls": calls},
-                {"do": "vfs_real", "calls": [["obs", TSEL + ("/" + p if p else "")] for p in sels]},
-                {"do": "vfs", "calls": [["obs", ZSEL + ("/" + p if p else "")] for p in sels]}]
+                {"do": "vfs_real", "calls": [["obs", TSEL + ("/" + p if p else "")] for p in sels]}]
+        for o in orders:
+            acts.append({"do": "vfs", "calls": [["obs", ZSEL + ("/" + p if p else "")] for p in o]})
         jobs.append(job_for(tree, members, acts, extra_root=[{"path": "outside.txt", "data": "OUTSIDE\n"}]))
-        meta.append(("tree", tree, members, sels, calls))
+        meta.append(("tree", tree, members, sels, calls, orders))
     for members in G.weird_archives(rng, nweird):
         names = sorted({c for m in members for c in m["raw"].split("/")} | {"a", "d", "l"})
         qs = G.weird_queries(rng, names)
         calls = [[rng.choice(list(VOPS)), ZSEL + rng.choice(["/", ""]) + q] for q in qs]
         jobs.append({"op": "c16", "tree": [], "members": members, "config": config_for(ZIP_FIRST),
                      "actions": [{"do": "index"}, {"do": "vfs", "calls": calls}]})
-        meta.append(("weird", None, members, qs, calls))
+        meta.append(("weird", None, members, qs, calls, None))
     res = impl_run_parallel(jobs, chunks=8)
     pre = []
     idx_cases, vfs_cases, tree_cases = [], [], []
@@ -208,7 +220,7 @@ def part_k(chk, tier, variant=None):
     for k, (mt, r) in enumerate(zip(meta, res)):
         if not r["ok"]:
             raise RuntimeError(r["err"] + "\n" + r.get("tb", ""))
-        kind, tree, members, sels, calls = mt
+        kind, tree, members, sels, calls, orders = mt
         out = r["res"]
         il = out["infolist"]
         pre.append("Definition ms_%d : list member := %s." % (k, coq_members(il)))
@@ -227,20 +239,34 @@ def part_k(chk, tier, variant=None):
                 chk.count(("vfs", k, op, s), nontrivial=(x[0] == "ok" and x[1] is not False))
         vfs_meta.append(k)
         if kind == "tree":
-            for p, ro, zo in zip(sels, a[2]["results"], a[3]["results"]):
+            robs = dict(zip(sels, a[2]["results"]))
+            for p, ro in robs.items():
                 if "//" in p or p.startswith("/"):
                     continue
                 tree_cases.append("((ms_%d, %s), %s)" % (k, comps_lit(p), coq_robs(ro)))
                 tree_meta.append((k, p))
                 chk.count(("treeobs", k, p), nontrivial=ro[0] != "absent")
-                # model-independent statement at the VFS level: archive == extracted tree
-                if not obs_equal(zo, ro):
-                    oracle_hits += 1
-                    found = True
-                    chk.violation({"what": "VFSZip and the extracted tree disagree on a path (class / children / bytes)",
-                                   "path": p, "archive_observation": zo, "tree_observation": ro,
-                                   "tree": tree, "members": members, "pruned_links": out["pruned"]},
-                                  tag=classify_vfs_diff(tree, p, variant))
+            # model-independent statement at the VFS level: archive == extracted tree, in every order
+            bad = {}            # path -> (order index, position)
+            for oi, o in enumerate(orders):
+                zres = a[3 + oi].get("results")
+                if zres is None:
+                    zres = [["exc"]] * len(o)
+                for pos, (p, zo) in enumerate(zip(o, zres)):
+                    chk.count(("vfsobs", k, oi, p), nontrivial=robs[p][0] != "absent")
+                    if not obs_equal(zo, robs[p]):
+                        bad.setdefault(p, []).append((oi, pos, zo))
+            for p, hits in bad.items():
+                oi, pos, zo = hits[0]
+                order_dependent = len(hits) < len(orders)
+                oracle_hits += 1
+                found = True
+                chk.violation({"what": "VFSZip and the extracted tree disagree on a path (class / children / bytes)"
+                                       + (" -- only after certain earlier lookups on the same VFSZip" if order_dependent else ""),
+                               "path": p, "archive_observation": zo, "tree_observation": robs[p],
+                               "sequence": orders[oi][:pos + 1], "orders_tried": len(orders), "orders_failing": len(hits),
+                               "tree": tree, "members": members, "pruned_links": out["pruned"]},
+                              tag="zip-vfs-order-dependent" if order_dependent else classify_vfs_diff(tree, p, variant))
     pre_txt = "\n".join(pre)
     imports = "Lib.Str Lib.ZipPath Model.Zip Corr.K16"
     m1, e1, n1 = coq_eval("C16", "k_index", imports, "chk_index", idx_cases, shard=12, pre=pre_txt)
@@ -290,11 +316,14 @@ def part_k(chk, tier, variant=None):
                   "tree": [{"members": meta[tree_meta[i][0]][2], "path": tree_meta[i][1]} for i in m3[:3]],
                   "normpath_split": [strings[i] for i in m4[:10]], "join": [pairs[i] for i in m5[:10]],
                   "errors": errs, "variant": variant}
-        chk.correspondence_broken("K16 (VFSZip index / VFS operations / extracted-tree reference / posixpath)", detail, found)
+        chk.k16_broken = detail
     return found
 
 
 def classify_vfs_diff(tree, p, variant):
+    import re
+    if any(re.search(r"\.zip$", c) for c in p.split("/")):
+        return "zip-vfs-differs-archive-like-name"
     return "zip-vfs-differs"
 
 
@@ -345,7 +374,7 @@ def refusal_class(proto, out):
 
 def without_real_only(handlers):
     drop = ("mbox.MaildirFolderHandler", "mbox.MaildirMessageHandler", "mbox.MBoxMessageHandler",
-            "mbox.MBoxFolderHandler", "pyg.PYGHandler", "scriptexec.ExecHandler")
+            "mbox.MBoxFolderHandler", "pyg.PYGHandler", "scriptexec.ExecHandler", "ZIP.ZIPHandler")
     items = [h.strip() for h in handlers.strip()[1:-1].split(",")]
     return "[" + ", ".join(h for h in items if h not in drop) + "]"
 
@@ -357,8 +386,10 @@ def part_oracle(chk, tier):
     rng = chk.rng
     found = False
     ntrees = 16 if tier == "thorough" else 4
-    feats = [("symlinks", "mbox", "exec", "maildir", "links"), ("utf8", "raw", "symlinks", "gophermap", "mbox"),
-             ("pyg", "exec", "utf8noflag", "utf8", "symlinks"), ("gophermap", "links", "symlinks")]
+    feats = [("symlinks", "mbox", "exec", "maildir", "links", "zipnames"),
+             ("utf8", "raw", "symlinks", "gophermap", "mbox", "prefixes"),
+             ("pyg", "exec", "utf8noflag", "utf8", "symlinks", "zipnames", "prefixes"),
+             ("gophermap", "links", "symlinks", "prefixes", "zipnames")]
     protos = gen.PROTOCOLS
     jobs, meta = [], []
     for i in range(ntrees):
@@ -501,7 +532,7 @@ def part_oracle(chk, tier):
                               "real_only_handler_inside_archive": nreal, "protocols": protos,
                               "masked": ["'XT.zip' -> 'XT' in the archive's answers",
                                          "Last-Modified / Mod-Date lines (value, and presence: archive directories have time 0)",
-                                         "the extracted tree is served without the real-file-only handlers",
+                                         "the extracted tree is served without the handlers that need a real file (mailboxes, scripts, PYG; also ZIP: an archive stored inside an archive is a document)",
                                          "wording of the refusal for selectors with |/? arguments"]}
     if meta:
         p, proto, gp, ai, d1, d2, tls = meta[-1][3][len(meta[-1][3]) // 2]
@@ -520,6 +551,9 @@ def classify_request_diff(tree, p, d19_paths):
         return "D19-archive-listing-differs"
     by_path = {e["path"]: e for e in tree}
     parts = base.split("/") if base else []
+    import re
+    if any(re.search(r"\.zip$", c) for c in parts):
+        return "zip-member-named-like-archive"
     for i in range(1, len(parts) + 1):
         e = by_path.get("/".join(parts[:i]))
         if e and e["kind"] == "link":
@@ -542,8 +576,13 @@ def translator_tie(chk):
 def run(tier):
     chk = Check("C16", tier)
     chk.proofs(extra_files=["Corr/K16.v", "Corr/T16.v"])
+    chk.k16_broken = None
     found = part_k(chk, tier)
     found = part_oracle(chk, tier) or found
+    if chk.k16_broken is not None:
+        # a concrete failing input wins over the report that model and code disagree
+        chk.correspondence_broken("K16 (VFSZip index / VFS operations / extracted-tree reference / posixpath)",
+                                  chk.k16_broken, found)
     if chk.proof_ok and not translator_tie(chk) and not found:
         chk.violation({"what": "translator tie: the tests on self.vfs in mbox.py / pyg.py / scriptexec.py do not turn "
                                "VFSZip away (theorem C16_real_only_repo needs repo_guards = true)",
@@ -590,7 +629,7 @@ def replay(path):
     handlers = (r.get("config") or {}).get("handlers.HandlerMultiplexer", {}).get("handlers", ZIP_FIRST)
     reproduced = False
     if "paths" in r or "path" in r:                       # VFS level
-        paths = r.get("paths") or [r["path"]]
+        paths = r.get("sequence") or r.get("paths") or [r["path"]]
         job = job_for(tree, members, [
             {"do": "vfs", "calls": [["obs", ZSEL + ("/" + p if p else "")] for p in paths]},
             {"do": "vfs_real", "calls": [["obs", TSEL + ("/" + p if p else "")] for p in paths]}])
